@@ -110,7 +110,7 @@ pub fn c04_frame<F: Fam>(ctx: &Ctx, g: &G, b: &[u8]) {
 }
 
 pub fn c04(ctx: &Ctx) {
-    ctx.set_rule("complete frames with minimally encoded integers, strict poll decoder vs the reference decoder: all frames with remaining length <= 2 (thorough 3) for all 256 control bytes, all bodies over B16 up to 4 (6) bytes for the legal control bytes; the reference encoding of U_val in every legal spelling (short/long forms, permuted properties); the malformation catalogue over U_small with one fault, and with one fault plus one byte substitution over B16; N1 (thorough: N2) re-framed. Accept <=> the reference accepts; on accept the packet equals the reference value mapped by variant name and the reported size is exact; pinned leniencies (DESIGN 4.1) tolerated either way. Non-trivial = frames the reference accepts or rejects past the header");
+    ctx.set_rule("complete frames with minimally encoded integers, strict poll decoder vs the reference decoder: all frames with remaining length <= 2 (thorough 3) for all 256 control bytes, all bodies over B16 up to 4 (6) bytes for the legal control bytes; the reference encoding of U_val and U_field (every value slot of every packet type over its atom catalogue) in every legal spelling (short/long forms, permuted properties); the malformation catalogue over U_small with one fault, and with one fault plus one byte substitution over B16; N1 (thorough: N2) re-framed. Accept <=> the reference accepts; on accept the packet equals the reference value mapped by variant name and the reported size is exact; pinned leniencies (DESIGN 4.1) tolerated either way. Non-trivial = frames the reference accepts or rejects past the header");
     fn fam<F: Fam>(ctx: &Ctx) {
         let f = F::FAMILY;
         let g = G { accept: AtomicU64::new(0), lenient: AtomicU64::new(0), reject: AtomicU64::new(0), out_of_domain: AtomicU64::new(0), not_frame: AtomicU64::new(0) };
@@ -118,7 +118,11 @@ pub fn c04(ctx: &Ctx) {
         let n = sweeps::u_frame(f, full_r, b16a, b16b, &|b| c04_frame::<F>(ctx, &g, b));
         ctx.count(&format!("{}_U_frame", F::NAME), n);
         // grammar-generated well-formed frames in every spelling
-        let u = gen::u_val(f, &scope_of(ctx));
+        let mut u = gen::u_val(f, &scope_of(ctx));
+        let n_uval = u.len();
+        // the field-value universe (every slot of every packet type over its atom catalogue, DESIGN 0.8)
+        u.extend(mqtt_ref::genfield::u_field(f, ctx.thorough()).0);
+        ctx.count(&format!("{}_U_field", F::NAME), (u.len() - n_uval) as u64);
         let n_sp = AtomicU64::new(0);
         u.par_iter().for_each(|a| {
             for form in [Form::Canon, Form::CodeOnly, Form::Full] {
@@ -132,7 +136,7 @@ pub fn c04(ctx: &Ctx) {
                 }
             }
         });
-        ctx.count(&format!("{}_wellformed_spellings_of_U_val", F::NAME), n_sp.load(Relaxed));
+        ctx.count(&format!("{}_wellformed_spellings_of_U_val_and_U_field", F::NAME), n_sp.load(Relaxed));
         let sp = spellings(f);
         sp.par_iter().for_each(|b| c04_frame::<F>(ctx, &g, b));
         ctx.count(&format!("{}_U_spell", F::NAME), sp.len() as u64);
